@@ -1338,6 +1338,12 @@ class Converter:
                     )
                 if i != len(loop_stmt.body) - 1:
                     self._fail(s, "Instruction break must be the last one of the loop.")
+                if s.orelse:
+                    self._fail(
+                        s,
+                        "An else branch of 'if <condition>: break' is not supported: "
+                        "its statements would be dropped.",
+                    )
 
                 current_scope = self._current_scope()
                 if s.test.id not in current_scope:
